@@ -41,6 +41,12 @@ func Tier() string {
 // plain ndjson or raw TLC output in which exported records appear as
 // PrintT lines of the form "EXPORT <json>" (a TLA+ string, JSON-quoted).
 func EachExport(path string, fn func(idx int, doc []byte) error) (int, error) {
+	return EachExportIf(path, nil, fn)
+}
+
+// EachExportIf is EachExport that decodes only the documents whose index satisfies want
+// (pool workers skip the cases of the other workers without paying for JSON decoding).
+func EachExportIf(path string, want func(idx int) bool, fn func(idx int, doc []byte) error) (int, error) {
 	f, err := os.Open(path)
 	if err != nil {
 		return 0, err
@@ -54,6 +60,12 @@ func EachExport(path string, fn func(idx int, doc []byte) error) (int, error) {
 			line = strings.TrimSpace(line)
 			var doc []byte
 			switch {
+			case strings.HasPrefix(line, "\"EXPORT ") && want != nil && !want(n):
+				n++
+				continue
+			case (strings.HasPrefix(line, "{") || strings.HasPrefix(line, "[")) && want != nil && !want(n):
+				n++
+				continue
 			case strings.HasPrefix(line, "\"EXPORT "):
 				var s string
 				if e := json.Unmarshal([]byte(line), &s); e != nil {
